@@ -70,6 +70,11 @@ func workloadImage(w *World, sc *Scenario) string {
 		if w.Get(d, sc.ns(), AppName) {
 			return d.Spec.Template.Spec.Containers[0].Image
 		}
+	case "DaemonSet":
+		d := &kruiseappsv1alpha1.DaemonSet{}
+		if w.Get(d, sc.ns(), AppName) {
+			return d.Spec.Template.Spec.Containers[0].Image
+		}
 	}
 	return ""
 }
@@ -435,6 +440,11 @@ func getWorkload(w *World, sc *Scenario) runtime.Object {
 		}
 	case "StatefulSet":
 		d := &apps.StatefulSet{}
+		if w.Get(d, sc.ns(), AppName) {
+			return d
+		}
+	case "DaemonSet":
+		d := &kruiseappsv1alpha1.DaemonSet{}
 		if w.Get(d, sc.ns(), AppName) {
 			return d
 		}
